@@ -190,6 +190,75 @@ fn check_f64(vd: &'static ViewDef) -> impl Fn(&Case) -> Verdict + Send + Sync {
     }
 }
 
+/// very long f64 runs (past 2^16 and 2^17 updates); ints = [seed, len, shape]. The definition is evaluated at the checkpoints of
+/// gen::ultra_checkpoints from the last N+2 values only (every C02 view is a function of the last N+1 values).
+fn check_ultra(vd: &'static ViewDef) -> impl Fn(&Case) -> Verdict + Send + Sync {
+    move |case: &Case| {
+        let spec = case.spec();
+        let n = spec.own_windows()[0];
+        let (seed, len, shape) = (case.ints[0] as u64, case.ints[1] as usize, case.ints[2]);
+        let id = format!("C02/{}/ultra/f64", vd.name);
+        let ks = gen::ultra_stream(seed, len, shape);
+        // the batch reference costs O(N^2) exact operations per checkpoint: the number of checkpoints shrinks with N
+        let cps = gen::ultra_checkpoints(seed, len, n, (400_000 / (n * n / 2 + 16 * n)).clamp(12, 200));
+        let mut v = build::<f64>(spec);
+        let mut at: Vec<(usize, Option<f64>, Option<f64>, Option<f64>)> = Vec::with_capacity(cps.len());
+        let mut ci = 0;
+        for (t, k) in ks.iter().enumerate() {
+            v.update(*k as f64 / 8.0);
+            if ci < cps.len() && cps[ci] == t {
+                at.push((t, v.last(), v.welford_mean(), v.welford_variance()));
+                ci += 1;
+            }
+        }
+        let mag = R::from_integer((ks.iter().map(|k| k.abs()).max().unwrap_or(0)).into()) / R::from_integer(8.into()) + R::one();
+        let mut compared = 0;
+        for (t, out, wm, wv) in at {
+            let s = t.saturating_sub(n + 1);
+            let h: Vec<R> = ks[s..=t].iter().map(|k| R::new((*k).into(), 8.into())).collect();
+            if vd.name == "Roc" && h.iter().any(|x| x.is_zero()) {
+                continue; // Roc holds its previous value over a zero reference: not a function of the slice alone
+            }
+            let want = (vd.reference)(&h, n).pop().unwrap();
+            let win = refs::window(&h, h.len() - 1, n);
+            if matches!(vd.kind, Kind::StdRatio) {
+                let var = refs::sample_var(win);
+                if var < f(1e-6) * &mag * &mag {
+                    continue; // ill-conditioned or flat window: C16's subject
+                }
+            }
+            let tol = |_: usize, r: &R| -> R {
+                match vd.kind {
+                    Kind::Value => f(1e-9) * &mag,
+                    Kind::Std => f(3.3e-5) * &mag,
+                    Kind::StdRatio => f(1e-6) * (R::one() + r.abs()),
+                    Kind::Ratio => f(1e-9) * (R::one() + r.abs()),
+                    Kind::Unit => f(1e-9),
+                }
+            };
+            if let Err(m) = compare_f64(&[out], &[want], &tol) {
+                return Verdict::fail(format!("{id}|{}", m.aspect), format!("{} [f64] after {} updates ({}): {}; the last {} inputs were {} (stream: seed {seed}, len {len}, shape {shape}, grid 1/8)", spec.show(), t + 1, m.aspect, m.detail, h.len(), show_bigs(&h)));
+            }
+            if vd.name == "WelfordOnline" {
+                let (em, ev) = (refs::mean(win), refs::sample_var(win));
+                match (wm, wv) {
+                    (Some(m), Some(var)) if m.is_finite() && var.is_finite() && abs_diff(&f(m), &em) <= f(1e-9) * &mag && abs_diff(&f(var), &ev) <= f(1e-9) * &mag * &mag => {}
+                    other => return Verdict::fail(format!("{id}|mean_variance"), format!("{} after {} updates: (mean(), variance()) = {other:?} expected ({}, {}) (stream: seed {seed}, len {len}, shape {shape})", spec.show(), t + 1, show(&em), show(&ev))),
+                }
+            }
+            compared += 1;
+        }
+        Verdict::pass(compared >= 8 && len > 70_000, vec![format!("shape_{shape}"), format!("N_{}", if n <= 8 { "le8" } else if n <= 64 { "le64" } else { "gt64" })])
+    }
+}
+fn strategy_ultra(mk: fn(usize) -> Spec) -> impl Fn(Tier) -> BoxedStrategy<Case> + Send + Sync {
+    move |tier: Tier| {
+        (prop_oneof![3 => 1usize..=8, 2 => 9usize..=40, 1 => 41usize..=130], any::<u64>(), 0i64..4)
+            .prop_map(move |(n, seed, shape)| Case { spec: Some(mk(n)), ints: vec![(seed >> 1) as i64, tier.pick(135_000, 1_100_000) as i64, shape], a: Rat(1, 1), ..Default::default() })
+            .boxed()
+    }
+}
+
 pub fn clauses() -> Vec<Clause> {
     let mut v = vec![];
     for vd in VIEWS.iter() {
@@ -199,6 +268,8 @@ pub fn clauses() -> Vec<Clause> {
         let lrule = "long histories: N in 1..8, 300..1200 values (thorough ..5000) built by tiling a grammar stream (every other tile reversed, tiles shifted); same oracle at every step. Reaches defects that need hundreds of updates (periodic re-synchronisation, counters, wrapped buffers).";
         v.push(Clause::generated("C02", format!("C02/{}/long/Q", vd.name), lrule, 40, 1000, strategy_long(vd.mk), check_q(vd)).with_shard(8));
         v.push(Clause::generated("C02", format!("C02/{}/long/f64", vd.name), lrule, 60, 2000, strategy_long(vd.mk), check_f64(vd)).with_shard(12));
+        let urule = "ultra-long histories: N in 1..130, 135 000 values (thorough 1.1e6) derived from a generated seed (wide noise; walk with plateaus; zero stretches; ties around a level) on the 1/8 grid, f64 run; the definition is evaluated from the last N+2 values at 12..200 checkpoints (fewer for large N): at every power of two from 2^16 on (where a narrowed counter wraps or saturates) and N+1 steps after it, the last steps, and seeded steps. Non-trivial: >= 8 checkpoints compared.";
+        v.push(Clause::generated("C02", format!("C02/{}/ultra/f64", vd.name), urule, 2, 40, strategy_ultra(vd.mk), check_ultra(vd)).with_shard(2));
     }
     v
 }
